@@ -162,6 +162,8 @@ class Gen:
                 return {"e": "fld", "x": {"e": "var", "n": r.choice(qs)[0], "ty": REC_Q}, "f": "f"}
             return self.lit(BOOL)
         # integers
+        if t == I32 and self.fn_ops and d < 2 and r.random() < 0.07:
+            return self.vararg_call(d)
         k = r.random()
         if d > 2 or k < 0.25:
             cands = self.vars_of(lambda vt, m: vt == t)
@@ -181,8 +183,6 @@ class Gen:
                 return {"e": "cast", "ty": jty(t), "x": self.expr(src, d + 1)}
         if k < 0.75:
             return {"e": "un", "op": "neg" if t[2] else "bnot", "x": self.expr(t, d + 1)}
-        if k < 0.77 and t == I32 and self.fn_ops and d < 2:
-            return self.vararg_call(d)
         if k < 0.79 and t == I32 and self.fn_ops:
             # a call through a function value: directly, or handed to apply2
             fv = self.expr(FN2)
